@@ -121,6 +121,26 @@ def run(ctx: core.Check):
             k += 1
             sign_chain(ctx, tr, keys, sh, p, [("error", key, alg, kid)], via="cli" if k % 25 == 0 else "lib", origin="kid")
     toolrun.report(ctx, tr, label="sign-kid")
+    # sign recursive appends the same kind of block to every configured level: the C04 clauses (BlockClause, everything else
+    # unchanged, manifests untouched) are judged per node by RecursiveJudge (the policy side belongs to C09)
+    ctx.note("Use C: recursive hierarchies (C04 clauses per signed node)")
+    from . import c09_policy
+    tr = toolrun.Trace()
+    # every omit pattern over a valid three-level hierarchy root -> #c -> #g, all algorithms
+    k = 0
+    for omit in ((0, 0, 0), (1, 0, 0), (0, 1, 0), (0, 0, 1), (1, 1, 0), (1, 0, 1), (0, 1, 1)):
+        for alg, key in ALGKEY.items():
+            k += 1
+            def cfg(o, kid):
+                return {"omit": bool(o), "haskey": True, "key": key, "alg": alg, "action": "error", "kid": kid}
+            g = {"name": "#g", "kind": "env", "pre": False, "cfg": cfg(omit[2], KIDS[k % len(KIDS)]), "children": []}
+            c = {"name": "#c", "kind": "env", "pre": False, "cfg": cfg(omit[1], 0x4000AA00 + k), "children": [g, {"name": "#x", "kind": "raw", "incfg": False, "cfg": {}}]}
+            root = {"name": "root", "kind": "env", "pre": False, "cfg": cfg(omit[0], 7), "children": [c]}
+            c09_policy.run_tree(ctx, tr, keys, root, ctx.rng, via="cli" if k % 12 == 0 else "lib", origin="recursive")
+    for k in range(20 if ctx.quick else 600):
+        tree = c09_policy.random_tree(ctx.rng)
+        c09_policy.run_tree(ctx, tr, keys, tree, ctx.rng, via="lib", origin="recursive")
+    toolrun.report(ctx, tr, label="sign-recursive")
     ctx.note("Use C: KMS signature loop (fixed-width r||s)")
     tr = toolrun.Trace()
     raw_signatures(ctx, tr, keys, 300 if ctx.quick else 3000)
@@ -135,7 +155,10 @@ def replay(ctx, rec):
     d = ctx.tmp("c04r")
     keys = signrun.Keys(d / "keys")
     tr = toolrun.Trace()
-    if scn.get("origin") == "rawsig":
+    if "tree" in scn:
+        from . import c09_policy
+        c09_policy.run_tree(ctx, tr, keys, scn["tree"], ctx.rng, via="lib", origin="replay")
+    elif scn.get("origin") == "rawsig":
         raw_signatures(ctx, tr, keys, scn["n"])
     else:
         b = envgen.Builder(d)
